@@ -87,8 +87,10 @@ def gen_times(r, N, mode):
         g = Fr(1, 2 ** r.randint(0, 6))
         start = r.choice([0, 0, r.randint(1, 400), -r.randint(1, 400)]) * 4 * g
         T = [start]
+        regular = r.random() < 0.4        # evenly spaced samples (what a fixed-step run records) as well as irregular ones
+        inc = 4 * g * r.randint(1, 60)
         for _ in range(N - 1):
-            T.append(T[-1] + 4 * g * r.randint(1, 60))
+            T.append(T[-1] + (inc if regular else 4 * g * r.randint(1, 60)))
         T = [F * t for t in T]
         for t in T:
             assert representable(t)
@@ -667,7 +669,73 @@ def run_sim(case):
     return out_info
 
 
+def run_wide(case):
+    """Grids of 130..2000 cells (more cells than an 8-bit coordinate type can count): the cell given as (x, y, z) in every
+    container and integer type a caller may hold - tuple, list, numpy arrays and scalars from int8 / uint8 up to uint64,
+    an object with numpy-scalar members, a numpy integer as linear index - read through the point and per-cell accessors
+    against data[n, s, c] = 1e6 n + 1e3 s + c / 4096 (exact)."""
+    use_repo()
+    import numpy as np
+    import strengths as st
+    sd, idx = case["seed"], case["idx"]
+    r = gen.rng_for(sd, "C17wide", idx)
+    cx = Ctx({k: case[k] for k in ("kind", "seed", "idx")})
+    while True:
+        w, hh, d = r.randint(1, 40), r.randint(1, 40), r.randint(1, 6)
+        C = w * hh * d
+        if 130 <= C <= 2000:
+            break
+    N, S = 2, r.randint(1, 2)
+    labels = ["A", "B"][:S]
+    net = st.RDNetwork([st.Species(l, density=0) for l in labels], [])
+    bc = r.choice([{"x": "reflecting", "y": "reflecting", "z": "reflecting"}, {"x": "periodical", "y": "periodical", "z": "periodical"},
+                   {"x": "periodical", "y": "reflecting", "z": "periodical"}])
+    space = st.RDGridSpace(w=w, h=hh, d=d, boundary_conditions=bc)
+    system = st.RDSystem(net, space)
+    flat = [1e6 * n + 1e3 * s + c / 4096.0 for n in range(N) for s in range(S) for c in range(C)]
+    tr = st.RDTrajectory(data=st.UnitArray(np.array(flat), "molecule"), t_sample=st.UnitArray([0.0, 1.0], "s"), system=system)
+    sp = {"w": w, "h": hh, "d": d}
+    dtypes = ["int8", "uint8", "int16", "uint16", "int32", "uint32", "int64", "uint64"]
+    cells = {0, C - 1} | {r.randrange(C) for _ in range(40)} | {r.randrange(max(1, C - 130), C) for _ in range(20)}
+    for c in sorted(cells):
+        x, y, z = ref.grid_coords(sp, c)
+        fit = [t for t in dtypes if max(x, y, z) <= np.iinfo(t).max]
+        forms = [("tuple", (x, y, z)), ("list", [x, y, z])]
+        for t in r.sample(fit, min(3, len(fit))) + fit[:2]:
+            forms.append(("array of " + t, np.array([x, y, z], dtype=t)))
+            forms.append(("object with %s members" % t, Coord(getattr(np, t)(x), getattr(np, t)(y), getattr(np, t)(z))))
+            forms.append(("tuple of " + t, tuple(getattr(np, t)(v) for v in (x, y, z))))
+        for t in [t for t in dtypes if c <= np.iinfo(t).max][:3]:
+            forms.append(("index as " + t, getattr(np, t)(c)))
+        s_ = r.randrange(S)
+        n_ = r.randrange(N)
+        want_pt = flat[n_ * S * C + s_ * C + c]
+        want_tr = [flat[n * S * C + s_ * C + c] for n in range(N)]
+        for fname, pos in forms:
+            cx.count("wide_grid_position_checks")
+            cx.count("wide_grid_form:" + fname.split(" ")[0])
+            try:
+                v = tr.get_trajectory_point(labels[s_], n_, pos)
+                a = tr.get_trajectory(s_, pos)
+                got_tr = [float(q) for q in a.value]
+                if not same_float(float(v.value), want_pt) or got_tr != want_tr:
+                    cx.report("a cell given by coordinates reads another cell than the same coordinates as plain integers",
+                              accessor="point/trajectory", cell_form=fname, grid=[w, hh, d], cell=c, coordinates=[x, y, z],
+                              got=[float(v.value), got_tr], expected=[want_pt, want_tr])
+            except Exception as e:
+                cx.report("exception on valid call", call="get_trajectory_point/get_trajectory", cell_form=fname, grid=[w, hh, d],
+                          cell=c, coordinates=[x, y, z], error="%s: %s" % (type(e).__name__, e))
+            if cx.full():
+                break
+        if cx.full():
+            break
+    return {"key": "wide-%d-%d-%d" % (w, hh, d), "nontrivial": True, "bad": cx.bad, "counts": cx.counts,
+            "sample": {"kind": "wide grid", "grid": [w, hh, d], "cells": C, "probed_cells": len(cells)}}
+
+
 def run_case(case):
+    if case["kind"] == "wide":
+        return run_wide(case)
     return run_sim(case) if case["kind"] == "sim" else run_shape(case)
 
 
@@ -715,7 +783,7 @@ def main():
                 "species_label_checks", "species_object_checks", "cell_tuple_checks", "cell_object_checks",
                 "lookup_closest", "lookup_infeq", "lookup_supeq", "lookup_exact_ties", "lookup_on_sample",
                 "lookup_none_expected", "lookup_form_number", "lookup_form_str", "lookup_form_unitvalue",
-                "sim_trajectories", "sim_lookup_trajectories")
+                "sim_trajectories", "sim_lookup_trajectories", "wide_grid_position_checks")
     sd = seed()
     cases = []
     sweep = [(n, s, c) for n in range(1, hi + 1) for s in range(1, hi + 1) for c in range(1, hi + 1)]
@@ -731,6 +799,8 @@ def main():
     nsim = 800 if thorough else 192
     for i in range(nsim):
         cases.append({"kind": "sim", "seed": sd, "idx": i})
+    for i in range(400 if thorough else 60):
+        cases.append({"kind": "wide", "seed": sd, "idx": i})
     # heavy first so that the round-robin shares are balanced
     order = sorted(range(len(cases)), key=lambda k: -(cases[k].get("N", 3) * cases[k].get("S", 2) * cases[k].get("C", 3)))
     cases = [cases[k] for k in order]
